@@ -68,6 +68,17 @@ def gen_cases(tier, seed):
     for c in sc:
         for o in optsets(1):
             cases.append({'shape': c['shape'], 'src': c['src'], 'opts': o})
+    # option triggers in their contexts (raise forms with keyword arguments, relative imports at several levels, decorated classes ...): the names
+    # they carry - keywords, attributes, imported modules - are interface names too
+    from vf.gen import triggergen
+    trig = list(triggergen.cases())
+    r.shuffle(trig)
+    trig = [c for c in trig if c['shape'].endswith('@special')] + [c for c in trig if not c['shape'].endswith('@special')]
+    for c in trig[:(500 if tier == 'quick' else len(trig))]:
+        o = options.default() if r.random() < 0.5 else options.all_on()
+        if r.random() < 0.3:
+            o = options.random_set(r, 0.7)
+        cases.append({'shape': c['shape'], 'src': c['src'], 'opts': o})
     for i in range(140 if tier == 'quick' else 1200):
         s, _ = modgen.generate(seed, 30000 + i, guarded=(i % 2 == 0), size=8 + (i % 3) * 5)
         for o in optsets(2):
